@@ -15,7 +15,8 @@ import Verif.Model.AcmeChallenge
     op=types idt=ip|dns|pi|wu|wd|other raw=x..
     op=rev ip=x..
 
-  Output (validate): `<status> err=<errT> ret=ok|ise fp=0|1 az=<authz status> tgt=<target>`;
+  Output (validate): `<status> err=<errT> ret=ok|ise fp=0|1 azrec=<authz status stored>:<expired> az=<authz status after UpdateStatus> tgt=<target>`
+  (optional input fields `azst=` `azexp=`: the owning authorization's stored status / expired flag before the call);
   (types) `offered=<types> val=<stored value> wild=0|1`; (rev) `arpa=<name>`, `crash`, `unmodelled`,
   `mismatch`, `nohash` (the oracle table lacks a digest the model needs), `parse-error`.
 -/
@@ -71,8 +72,9 @@ def targetS : Target → String
   | .txt n => "txt:" ++ xs n
   | .tls a sni => "tls:" ++ xs a ++ ":" ++ xs sni
 
-def outcomeS (cmp : Bool) (o : Outcome) : String :=
-  s!"{statusS o.status} err={errS o.err} ret={if o.ret = .ok then "ok" else "ise"} fp={if o.authzFp then 1 else 0} az={statusS (authzAfter o)} tgt={if cmp then targetS o.target else "?"}"
+def outcomeS (cmp : Bool) (az : AzRec) (o : Outcome) : String :=
+  let r := daAuthzRecord az o
+  s!"{statusS o.status} err={errS o.err} ret={if o.ret = .ok then "ok" else "ise"} fp={if o.authzFp then 1 else 0} azrec={statusS r.status}:{if r.expired then 1 else 0} az={statusS (authzUpdateStatus r (o.status = .valid))} tgt={if cmp then targetS o.target else "?"}"
 
 /-- oracle table entry -/
 def hentry? (t : String) : Option (Str × Str × Str) :=
@@ -177,6 +179,8 @@ def evalValidate (kv : List (String × String)) : Option String := do
   let cmp ← bool? (← lookup kv "cmp")
   let tab ← list? "," hentry? (← lookup kv "h")
   let w ← world? kv
+  -- the owning authorization as stored before the call (default: pending, not expired)
+  let az : AzRec := ⟨((lookup kv "azst").bind status?).getD .pending, ((lookup kv "azexp").bind bool?).getD false⟩
   let ch : Ch := { typ, status, err := perr, value, token, thumb, ip }
   -- every digest the model can ask for must be in the oracle table
   let need : List Str := match typ, thumb with
@@ -186,7 +190,7 @@ def evalValidate (kv : List (String × String)) : Option String := do
     | _, _ => []
   if status = .pending ∧ need.any (fun p => !(tab.any (·.1 = p))) then pure "nohash"
   else match validate (mkHash tab) cfg dbOk ch w with
-    | .done o => pure (outcomeS cmp o)
+    | .done o => pure (outcomeS cmp az o)
     | .crash => pure "crash"
     | .unmodelled => pure "unmodelled"
     | .mismatch => pure "mismatch"
